@@ -107,6 +107,24 @@ CHECKS = {
              'DAGs x permutations; the property itself (permutation, order, import of generated Python, equal layouts) is evaluated on the real tool.',
         note='Success on every acyclic input (the rotation bound never rejects a DAG) is argued in DESIGN.md and exercised by the run; its Lean proof is listed as target.',
         technique='Lean 4 proof (induction over the rotation loop) + differential correspondence with prophyc.main()', ref='5/C15'),
+    'C16': dict(
+        text='Lean 4 theorems about the model of FileProcessor + include handling over an abstract file system (search path stack, cache with '
+             'cycle marker): a file being processed is reported as a cyclic include; an include found in no search directory is an error; a '
+             'processed file is never parsed again and exports what it exported the first time; the names visible in a file are its '
+             'includes\' definitions followed by its own. The model is tied to the code by comparing the files parsed and the names visible '
+             'with an event trace of the real FileProcessor + parser; the property (multi-file build = single-file build: constants, layouts, '
+             'encodings; missing / cyclic includes are errors) is evaluated through the real CLI over partitions, -I layouts and working directories.',
+        note='os.path / file system semantics are abstracted to (directory, leaf) pairs. Known finding D26 (isar include errors are warnings) matched by signature.',
+        technique='Lean 4 proof over an executable model + differential correspondence (event traces) with the real tool', ref='5/C16'),
+    'C17': dict(
+        text='Lean 4 theorems: every isar <dimension> form (fixed, dynamic, limited, message-dynamic, optional) yields exactly the member '
+             'records of the corresponding prophy syntax, for every name, type and size expression; every patch action yields the documented '
+             'rewrite and every inapplicable rule (absent member, size field not before the array, greedy not last, non-positive size) is an '
+             'error that fails the whole script. The models of isar.make_struct_members and patch.py are tied to the code by running the real '
+             'functions; wire equality (layouts and encodings through both generated modules) and the CLI rules (absent message ignored, '
+             'inapplicable rule fails through the error channel) are evaluated on the real tool.',
+        note='ElementTree and the XML text level are trusted; sack front-end not covered (needs libclang).',
+        technique='Lean 4 proof over executable models + differential correspondence with the real front-ends', ref='5/C17'),
     'C18': dict(
         text='Lean 4 theorems, complete for the modelled text functions: for every message type built from integers, enums, bytes and '
              'composites at any nesting and every value whose bytes fields have a single-quote Python repr, Python str() equals C++ print() '
@@ -120,6 +138,13 @@ CHECKS = {
              'against the chunk map of the Spec, and Py.encode is tied to the code by correspondence.',
         note='Transport from Spec.enc to the Python codec rests on C01 (correspondence + theorems); C++ half runs in the C03 batches.',
         technique='Lean 4 proof (structural induction on chunk lists) + differential correspondence', ref='5/C19'),
+    'C20': dict(
+        text='Lean 4 theorems about the model of the shared FileProcessor cache (a processed file is never parsed again and exports the same '
+             'names; names visible in a file are a function of its includes and itself), tied to the real FileProcessor by event traces for '
+             'different input orders; determinism itself is evaluated by differential runs of the real CLI: PYTHONHASHSEED values x working '
+             'directories x command-line orders x one-file-alone, byte comparison of every generated file (Python, C++ full, C++ raw).',
+        note='partial: CPython hash randomisation, set/dict iteration order and cwd handling are runtime behaviour the model cannot exhibit; that part is decided by differential execution only.',
+        technique='Lean 4 proof over the cache model + differential runs of the real CLI', ref='5/C20'),
 }
 
 
